@@ -37,6 +37,8 @@ type Config struct {
 	// TimeDelay (ns) for all TM clients.
 	TimeDelay uint64
 	KeepLog   bool
+	// Rules stored at genesis on every chain (nil => "*,*,*"; empty non-nil slice => deny all).
+	Rules []string
 }
 
 func (w *World) Now() time.Time { return w.now }
@@ -61,7 +63,7 @@ func New(cfg Config) *World {
 				others = append(others, o)
 			}
 		}
-		c := NewChainWithLog(w, ChainConfig{Name: n, RelayersFor: others}, cfg.KeepLog)
+		c := NewChainWithLog(w, ChainConfig{Name: n, RelayersFor: others, Rules: cfg.Rules}, cfg.KeepLog)
 		w.Chains[n] = c
 		w.Order = append(w.Order, n)
 		w.Links[n] = map[string]bool{}
